@@ -70,6 +70,16 @@ Proof. exact (no_empty_item den L maxsend_pos c). Qed.
 Theorem c01_flush_never_spins (c : conn B) (ks : list kres) : reachable c -> rspin (snd (op_flush c ks)) = false.
 Proof. exact (flush_never_spins den L maxsend_pos c ks). Qed.
 
+(* several goroutines: whatever the interleaving of their calls, the stream is the concatenation of WHOLE reported
+   ranges in the order in which the calls were serialized - no call's bytes inside another's.  That a call is one atomic
+   step is the model's reading of "one critical section of Conn.mux per call"; the concurrent tier of the harness
+   checks exactly that on the real code (lock acquisitions per call, linearizability of the observed results). *)
+Theorem c01_concurrent_calls (ts : list (list (op B))) (ops : list (op B)) :
+  merges ts ops ->
+  let s := fst (run conn0 ops) in
+  closed s = false -> den (wire s) ++ pending den s = accepted den conn0 ops.
+Proof. exact (stream_merge den L maxsend_pos ts ops). Qed.
+
 End Statements.
 
 (* the reading on plain lists: payloads are lists over an arbitrary element type (parametricity: no byte altered) *)
@@ -130,6 +140,17 @@ Example c01_empty_inputs_are_not_queued :
   wlist (fst (step s (OFlush [Took 100; Took 100; Took 100]%positive))) = [].
 Proof. vm_compute. repeat split; reflexivity. Qed.
 
+(* two goroutines with two calls each: one of their interleavings *)
+Example c01_merges_nonvacuous :
+  let a1 := OWrite (pay 100 8) [Took 3]%positive in let a2 := OFlush [] in
+  let b1 := OWritev [pay 101 2; pay 102 4] [] in let b2 := OSendfile 7 2 5 false [] in
+  merges [[a1; a2]; [b1; b2]] [a1; b1; b2; a2].
+Proof.
+  cbn zeta.
+  apply (merges_step [] _ _ [_]). apply (merges_step [_] _ _ []). apply (merges_step [_] _ _ []).
+  apply (merges_step [] _ _ [_]). apply merges_nil. repeat constructor.
+Qed.
+
 End Examples.
 
 Print Assumptions c01_integrity.
@@ -137,6 +158,7 @@ Print Assumptions c01_report.
 Print Assumptions c01_failed_call.
 Print Assumptions c01_stream.
 Print Assumptions c01_contiguous.
+Print Assumptions c01_concurrent_calls.
 Print Assumptions c01_queue_items_nonempty.
 Print Assumptions c01_flush_never_spins.
 Print Assumptions c01_stream_lists.
